@@ -78,7 +78,8 @@ Paths(ev) ==
 
 (* scoped_fd histories: descriptors are logical ids 1..; every close() of a tracked descriptor is logged *)
 Sfd(ev) ==
-  LET r == SfdApply(owner, ev.op, ev.a, ev.b, ev.fd) IN
+  LET op == IF ev.op \in {"open_c", "open_s"} THEN "assign_int" ELSE ev.op      \* open() on a live object: gives up the old descriptor, holds the new one
+      r == SfdApply(owner, op, ev.a, ev.b, ev.fd) IN
   /\ Chk(ev.closed = r.closed, "scoped_fd: this operation must close exactly the descriptor it gives up")
   /\ Chk(ev.held = [s \in Slots |-> r.o[s]], "scoped_fd: descriptor held by each object after the operation")
   /\ owner' = r.o /\ closes' = closes \o ev.closed /\ UNCHANGED pm
